@@ -127,7 +127,7 @@ func RunC08(p *harness.Program, thorough bool) Result {
 
 	nontrivial := false
 	for _, fp := range plans {
-		fr, v := runWithFault(p, fp, skipReopen)
+		fr, v := runWithFault(p, fp, skipReopen, true)
 		c["fault-runs"]++
 		c["fault-runs-"+fp.f.Kind.String()]++
 		if fr != nil {
@@ -142,6 +142,9 @@ func RunC08(p *harness.Program, thorough bool) Result {
 				c["fault-not-hit"]++
 			}
 			c["recovered-maybe-state"] += fr.Counters["recovered-maybe-state"]
+			for _, k := range []string{"fault-crash-images", "fault-crash-images-with-unconfirmed-commit", "fault-crash-recovered-unconfirmed-commit", "begin-failed-by-fault", "known-F16-exposed-no-suffix"} {
+				c[k] += fr.Counters[k]
+			}
 			c["commit-failed-sync-only"] += fr.Counters["commit-failed-sync-only"]
 		}
 		if v != nil {
@@ -159,8 +162,8 @@ func RunC08(p *harness.Program, thorough bool) Result {
 	return Result{Counters: c, Nontrivial: nontrivial}
 }
 
-func runWithFault(p *harness.Program, fp faultPlan, skip func(int, *harness.Item) bool) (*harness.Runner, *harness.Violation) {
-	o := harness.RunOpts{Drain: true, CheckContent: true, CheckLockIdle: true, Faults: true, NoFinalClose: true, SkipItem: skip}
+func runWithFault(p *harness.Program, fp faultPlan, skip func(int, *harness.Item) bool, crashImages bool) (*harness.Runner, *harness.Violation) {
+	o := harness.RunOpts{Drain: true, CheckContent: true, CheckLockIdle: true, Faults: true, NoFinalClose: true, SkipItem: skip, TrackCommits: true}
 	r, v := harness.NewRunner(p, o)
 	if v != nil {
 		return nil, v
@@ -185,6 +188,24 @@ func runWithFault(p *harness.Program, fp faultPlan, skip func(int, *harness.Item
 	}
 	// failures stop for good
 	r.Disk.Arm(nil)
+	// a crash at any point from the first commit attempt that failed by syncs only: its header may
+	// be durable; whatever the process did afterwards must not damage that state (or the last good one)
+	for i := range r.Commits {
+		if c := &r.Commits[i]; crashImages && !c.OK && c.MaybeState != nil && !r.PostPub {
+			var st harness.CrashStats
+			st.RecoveredTo = map[string]int{}
+			cp := harness.CrashParams{MaxFull: 3, Random: 1, TornCuts: []int{40}, MaxImages: 400, Seed: uint64(fp.f.Ordinal)}
+			v := harness.CheckFaultCrashImages(r, cp, &st, c.BeginIdx)
+			r.Counters["fault-crash-images"] += st.Images
+			r.Counters["fault-crash-images-with-unconfirmed-commit"] += st.InWindow
+			r.Counters["fault-crash-recovered-unconfirmed-commit"] += st.RecoveredTo["other"]
+			if v != nil {
+				r.Finish()
+				return r, v
+			}
+			break
+		}
+	}
 	return r, postPub(r, finishAfterFaults(r))
 }
 
@@ -279,16 +300,6 @@ func finishAfterFaults(r *harness.Runner) (v *harness.Violation) {
 		first.Clause = clause("reopen-state-after-faults")
 		first.Msg = fmt.Sprintf("after reopening, the file shows neither the last successfully committed state nor completely the state of a commit whose only failure was a sync (%d candidates): %s", len(candidates), first.Msg)
 		return first
-	}
-	if exposed {
-		// Known finding F16, excluded by construction: the exposed header of the failed attempt may
-		// reference free list / mapping pages that the rollback has truncated or that were re-used, so
-		// the allocator state of this File is undefined even though the contents verified. A write
-		// transaction on it can hand garbage page ids to the background writer (process-wide panic
-		// in the writer goroutine, which no caller can recover). Counted, not continued.
-		r.Counters["known-F16-exposed-no-suffix"]++
-		f.Close()
-		return nil
 	}
 	// continue on the reopened file: a further transaction must commit
 	suffix := &harness.Program{Cfg: r.P.Cfg, Items: []harness.Item{
